@@ -875,7 +875,11 @@ func runStream(c *mon.Case, r *mon.Run, dir string, chunk int, scenario int, see
 			k := 1 + rng.IntN(body)
 			withData := rng.IntN(2) == 0
 			s2c.Pause(true)
-			lead := l.payloadPackets(rng.IntN(3000), 0, rng.IntN(50))
+			leadMax := 3000
+			if chunkings[chunk].win > 0 {
+				leadMax = 1000 // (the wire is held: the burst must fit into its window)
+			}
+			lead := l.payloadPackets(rng.IntN(leadMax), 0, rng.IntN(50))
 			last := l.sess.Enc.Packet(ss.FlagPayload, l.downBytes(k), body-k)
 			cutAt := s2c.Written() + int64(len(lead)) + 21
 			sw.Write(append(lead, last...))
